@@ -127,7 +127,9 @@ sx_make_symboln(const char *s, size_t len)
     if (node->data.symbol == NULL) {
         sxoom(__FILE__, __LINE__);
     }
-    strlcpy(node->data.symbol, s, n);
+    /* The source need not be terminated: copy exactly len octets; calloc()
+     * has already provided the terminator. */
+    memcpy(node->data.symbol, s, len);
     return node;
 }
 
